@@ -34,6 +34,7 @@ def run(ctx):
         r_c = None
     if r_c is not None and hasattr(r_c, "rule_G1C"):
         ctx.run_rule("G1C", r_c.rule_G1C)
+        ctx.run_rule("G1obj", r_c.rule_G1obj)
     try:
         import r_asm
     except ImportError:
